@@ -35,7 +35,7 @@ def check(tr):
             continue
         seen_sn.add(sn)
         order.append((t, sn))
-        rep = tr.runs[(t, run)]["reports"][idx]
+        rep = tr.report(t, run, idx)
         # values unchanged
         for k, v in rep["values"].items():
             if res.get(k) != v and not (v == "NaN" and res.get(k) == "NaN"):
